@@ -1,5 +1,6 @@
 import SC.Model.Utf8
 import SC.Model.Fold
+import SC.Model.Spec
 /-!
 `Std`: a transliteration of the Go standard library's `strings.EqualFold` / `bytes.EqualFold`
 (go1.26 `src/strings/strings.go`, `src/bytes/bytes.go`), over the toolchain's `unicode.SimpleFold`
@@ -62,5 +63,58 @@ def asciiLoop (rl : Bytes → Bytes → Option Bool) : Bytes → Bytes → Optio
 
 def equalFoldS (s t : Bytes) : Option Bool := asciiLoop (runeLoopS (s.length + 1)) s t
 def equalFoldB (s t : Bytes) : Option Bool := asciiLoop (runeLoopB (s.length + 1)) s t
+
+end Std
+
+/-!
+## The other namesakes of package `strings` / `bytes` (C20), as byte-level specifications
+
+Each is the documented semantics of the standard-library function (the fast paths of the real
+implementations are not modelled).  They are compared with the real `strings`/`bytes` results on
+every generated op (third driver column), for arbitrary bytes.
+-/
+namespace Std
+open Utf8
+
+/-- the code points `for _, r := range s` yields -/
+def runes (s : Bytes) : List Nat := (dec s).map (·.1)
+
+/-- strings.Index: least `i` with `s[i:i+len(t)] == t` -/
+def index (s t : Bytes) : Int := match Spec.findSub s t with | some k => (k : Int) | none => -1
+def lastIndex (s t : Bytes) : Int := match Spec.findSubLast s t with | some k => (k : Int) | none => -1
+def contains (s t : Bytes) : Bool := (Spec.findSub s t).isSome
+def hasPrefix (s t : Bytes) : Bool := t.isPrefixOf s
+def hasSuffix (s t : Bytes) : Bool := t.isSuffixOf s
+def trimPrefix (s t : Bytes) : S.Slice := if hasPrefix s t then (t.length, s.length - t.length) else (0, s.length)
+def cutPrefix (s t : Bytes) : S.Slice × Bool :=
+  if hasPrefix s t then ((t.length, s.length - t.length), true) else ((0, s.length), false)
+def trimSuffix (s t : Bytes) : S.Slice := if hasSuffix s t then (0, s.length - t.length) else (0, s.length)
+def cutSuffix (s t : Bytes) : S.Slice × Bool :=
+  if hasSuffix s t then ((0, s.length - t.length), true) else ((0, s.length), false)
+/-- strings.Count: non-overlapping instances; `utf8.RuneCountInString(s) + 1` for an empty separator -/
+def count (s t : Bytes) : Nat := if t = [] then (dec s).length + 1 else Spec.countFrom (s.length + 1) s t
+def cut (s t : Bytes) : S.Slice × S.Slice × Bool :=
+  match Spec.findSub s t with
+  | some i => ((0, i), (i + t.length, s.length - (i + t.length)), true)
+  | none => ((0, s.length), (0, 0), false)
+/-- strings.Compare: lexicographic on bytes -/
+def compare (s t : Bytes) : Int := lexCmp (s.map UInt8.toNat) (t.map UInt8.toNat)
+def indexByte (s : Bytes) (c : UInt8) : Int := S.firstAt (fun x => x.headD 0 == c) s 0
+def lastIndexByte (s : Bytes) (c : UInt8) : Int := S.lastAt (fun x => x.headD 0 == c) s 0
+/-- strings.IndexRune -/
+def indexRune (s : Bytes) (r : Int) : Int :=
+  if 0 ≤ r ∧ r < 0x80 then indexByte s (UInt8.ofNat r.toNat)
+  else if r = 0xFFFD then
+    match (runes s).findIdx? (· == 0xFFFD) with | some k => (offAt s k : Int) | none => -1
+  else if ¬ (0 ≤ r ∧ validRune r.toNat) then -1
+  else index s (encode r.toNat)
+def containsRune (s : Bytes) (r : Int) : Bool := indexRune s r ≥ 0
+/-- strings.IndexAny: first code point of `s` (ill-formed bytes read as U+FFFD) that occurs among the code points of `chars` -/
+def indexAny (s cs : Bytes) : Int :=
+  match (runes s).findIdx? (fun x => (runes cs).contains x) with | some k => (offAt s k : Int) | none => -1
+def lastIndexAny (s cs : Bytes) : Int :=
+  match (runes s).reverse.findIdx? (fun x => (runes cs).contains x) with
+  | some k => (offAt s ((runes s).length - 1 - k) : Int) | none => -1
+def containsAny (s cs : Bytes) : Bool := indexAny s cs ≥ 0
 
 end Std
